@@ -408,7 +408,7 @@ class G:
         return out.name
 
     # CPU-only / unsupported helpers
-    def cpu_op(self, x, kind):
+    def cpu_op(self, x, kind, other=None):
         """An operator Vela leaves on the CPU, shape-preserving, quantisation-preserving for the reference (identity-like semantics
         are NOT assumed: tfref implements each)."""
         X = self.T(x)
@@ -420,7 +420,7 @@ class G:
             out = self.act(nm + "_o", X.shape, X.scale[0], -X.zp[0] if X.dtype.name == "int8" and X.zp[0] != -128 else X.zp[0])
             self.net.add_o(BO.NEG, [x], [out.name], "NegOptions", {}, 2)
         elif kind == "floor_div":
-            k = self.const_act(X.shape, X.dtype.name, X.scale[0], X.zp[0])
+            k = other if other is not None else self.const_act(X.shape, X.dtype.name, X.scale[0], X.zp[0])
             out = self.act(nm + "_o", X.shape, X.scale[0], X.zp[0])
             self.net.add_o(BO.FLOOR_DIV, [x, k], [out.name], "FloorDivOptions", {}, 2)
         elif kind == "cast_i16":
@@ -775,6 +775,19 @@ def fam_cpu_mix(seed):
         extra_in = g.input([1, h, w, c])
     outs = []
     n = int(r.integers(3, 9))
+    if r.integers(0, 4) == 0:
+        # a graph input consumed by an accelerated elementwise operator (a candidate for writing its result over its input) and again by a later CPU operator
+        x0 = x
+        X0 = g.T(x0)
+        pick = r.integers(0, 3)
+        if pick == 0:
+            a = g.unary("abs", x0, oscale=X0.scale[0], ozp=X0.zp[0])
+        elif pick == 1:
+            a = g.eltwise("add", x0, g.const_act([1, 1, 1, c]), oscale=X0.scale[0], ozp=X0.zp[0])
+        else:
+            a = g.unary("leaky_relu", x0, oscale=X0.scale[0], ozp=X0.zp[0])
+        x = g.cpu_op(a, "floor_div", other=x0)
+        n = int(r.integers(1, 4))
     for i in range(n):
         t = r.integers(0, 10)
         if t <= 3:
